@@ -32,7 +32,18 @@ type CallRec struct {
 	Principals    []string
 	SawToken      bool // a handler-visible value looked like a state token
 	Hashes        []string
+	SessionOpened bool
+	SessionSeen   int64 // nonce of the session state a "use" handler found bound
 }
+
+// SessState is the sticky-session state scripted handlers open.
+type SessState struct {
+	Nonce  int64
+	Closes int
+}
+
+// Close counts Close calls (the registry calls it when the session ends).
+func (s *SessState) Close() error { s.Closes++; return nil }
 
 // Recorder is the process-wide record of harness callbacks. It is reset per run.
 type Recorder struct {
@@ -401,6 +412,22 @@ func preamble(ctx context.Context, cc *vgirpc.CallContext, p ScriptParams) (*Scr
 		InitHook(ctx, cc, s)
 	}
 	yield("handler")
+	switch s.Sess {
+	case "open":
+		st := &SessState{Nonce: s.Nonce}
+		if err := cc.OpenSession(st, 0); err != nil {
+			return s, err
+		}
+		Rec.With(s.Nonce, func(c *CallRec) { c.SessionOpened = true })
+	case "use":
+		st, _ := cc.Session().(*SessState)
+		if st == nil {
+			return s, &vgirpc.RpcError{Type: "ValueError", Message: "no session bound to this request"}
+		}
+		Rec.With(s.Nonce, func(c *CallRec) { c.SessionSeen = st.Nonce })
+	case "close":
+		cc.CloseSession()
+	}
 	emitLogsCtx(cc, s.Logs)
 	switch s.Outcome {
 	case "error":
